@@ -216,7 +216,7 @@ def generate(prop, rng, tier):
     n = rng.randint(3, 8)
     pool = ["get_params", "roundtrip_params", "set_flat", "set_unknown", "clone", "call_unfitted",
             "call_unfitted", "fit", "fit", "clone_fitted", "pickle", "set_nested", "replace_component",
-            "set_ordered", "update_fitted", "failing_fit", "failing_refit"]
+            "set_ordered", "update_fitted", "failing_fit", "failing_refit", "failing_refit", "fit"]
     for _ in range(n):
         ops.append(rng.choice(pool))
     return {"class": cls.__name__, "qual": q, "kind": kind, "ctor_seed": rng.randint(0, 10 ** 6),
@@ -727,6 +727,41 @@ def execute(prop, scen):
                 # a fitted forecaster whose next (re)fit raises - directly, through update, or
                 # inside update_predict's moving-cutoff loop (a NaN the regressor rejects): the
                 # fit that raised must not leave the forecaster claiming to be fitted
+                if kind == "series-transformer" and fitted and name not in NOT_FITTABLE:
+                    # the transformer analogue: a second fit on a series with a missing value,
+                    # or on one that is far too short
+                    badz = data["z"].copy()
+                    if rng.random() < 0.5:
+                        badz.iloc[len(badz) // 2] = np.nan
+                    else:
+                        badz = badz.iloc[:2]
+                    try:
+                        est.transform(data["z"])
+                    except Exception:
+                        continue
+                    try:
+                        est.fit(badz)
+                    except Exception:
+                        res.probe("failed_refit_checked")
+                        if getattr(est, "is_fitted", False):
+                            try:
+                                est.transform(data["z"])
+                            except NotFittedError:
+                                v("fitted_flag_after_failed_fit", "after a fit that raised on an "
+                                  "already fitted transformer is_fitted is True but transform raises "
+                                  "NotFittedError", how="fit", refit=True)
+                                break
+                            except Exception:
+                                pass
+                        else:
+                            check_not_fitted(v, res, est, kind, data, NotFittedError, cloned=False)
+                    # continue on a cleanly fitted object
+                    try:
+                        est.fit(data["z"])
+                        fitted = True
+                    except Exception:
+                        break
+                    continue
                 if kind != "forecaster" or not fitted or name in NOT_FITTABLE:
                     continue
                 how = rng.choice(["fit", "update", "update_predict"])
